@@ -376,6 +376,23 @@ func attributeIndependenceIn(r *core.Run, rel string, srcPkgs []string, table st
 			recs = append(recs, &copyRec{key: fmt.Sprintf("%s | %s = %s", fn, lhsStr, chainKey(info, fd, chain)), chain: chain, pos: at.Pos(), foreign: foreign, foreignIfs: foreignIfs, allIfs: allIfs})
 			return true
 		})
+		// an else-if chain is one multi-way choice (a switch spelled with ifs): its members
+		// share the root `if`
+		elseParent := map[*ast.IfStmt]*ast.IfStmt{}
+		ast.Inspect(fd, func(n ast.Node) bool {
+			if is, ok := n.(*ast.IfStmt); ok {
+				if e, ok := is.Else.(*ast.IfStmt); ok {
+					elseParent[e] = is
+				}
+			}
+			return true
+		})
+		chainRoot := func(is *ast.IfStmt) *ast.IfStmt {
+			for elseParent[is] != nil {
+				is = elseParent[is]
+			}
+			return is
+		}
 		for _, c := range recs {
 			o := r.Add("R-SYM/S7", c.key, c.pos, "copy of source attribute "+c.chain)
 			// a foreign condition only selects the output slot when the other
@@ -389,6 +406,10 @@ func attributeIndependenceIn(r *core.Run, rel string, srcPkgs []string, table st
 					}
 					for _, b := range c2.allIfs {
 						if b.ifs == f.ifs && b.then != f.then {
+							covered = true
+						}
+						// another arm of the same else-if chain copies it too
+						if b.ifs != f.ifs && b.then && f.then && chainRoot(b.ifs) == chainRoot(f.ifs) {
 							covered = true
 						}
 					}
